@@ -92,7 +92,9 @@ impl Property for C07 {
          exact similarities. Oracle: 0 if the exact DE-9IM says they intersect, else sqrt of the exact rational minimum squared \
          distance over all primitive pairs, times 2^k. Checked: value (relative 1e-12 + 4 ulp of the coordinate magnitude), exactly 0.0 \
          iff intersecting, symmetry, Geometry-enum path, same value for 2 re-representations. Non-trivial = the operands do not \
-         intersect while their bounding boxes do."
+         intersect while their bounding boxes do. Sub-cases: a point against an oblique segment at rounding level (exact on-segment \
+         test decides the zero clause), empty operands (no panic, order / wrapper independent), and point sets at an extreme uniform \
+         scale 2^+-520..999 (the distance is representable although its square is not)."
             .into()
     }
     fn must_hit() -> Vec<&'static str> {
